@@ -74,9 +74,10 @@ fn edge_pairs<T: Fx>(r: &mut Rec, rng: &mut StdRng, quick: bool) {
         bin(r, "div", a, b);
         bin(r, "div", b, a);
     }
-    let step = if quick { 7 } else { 1 };
-    let mut j = 1;
-    while j < T::bits() - 2 {
+    // quick: every 7th shift, plus the first and last three (the ends of the sweep)
+    let last_j = T::bits() - 3;
+    let js: Vec<u32> = (1..=last_j).filter(|j| !quick || *j <= 3 || *j + 3 > last_j || *j % 7 == 1 || *j == T::SD || *j == T::SD + 1).collect();
+    for j in js {
         let p = Big::pow2(j).mul(&s); // 2^j as a value
         for base in [&min, &max] {
             for d in [-1i128, 0, 1] {
@@ -99,11 +100,10 @@ fn edge_pairs<T: Fx>(r: &mut Rec, rng: &mut StdRng, quick: bool) {
                 }
             }
         }
-        j += step;
     }
     // 10^k * 10^m at the decimal edge of the range, and x * (1/x)-like pairs
     let digits = T::bits() * 30103 / 100000;
-    for k in (0..=digits).step_by(if quick { 5 } else { 1 }) {
+    for k in (0..=digits).filter(|k| !quick || *k % 5 == 0 || *k <= 1 || *k + 1 >= digits || *k == T::SD) {
         for m in [digits - k, digits + 1 - k, (digits + T::SD).saturating_sub(k), (digits + T::SD + 1).saturating_sub(k)] {
             if let (Some(a), Some(b)) = (f(&Big::pow10(k)), f(&Big::pow10(m))) {
                 bin(r, "mul", a, b);
@@ -121,10 +121,8 @@ fn arith_for<T: Fx>(r: &mut Rec, rng: &mut StdRng, scale: usize) {
     // 1. core x core x 4 operations
     for (i, x) in core.iter().enumerate() {
         for (j, y) in core.iter().enumerate() {
-            for (k, op) in OPS.iter().enumerate() {
-                if quick && (i + j + k) % 2 == 1 {
-                    continue;
-                }
+            // the FULL product (limit value x limit value x operation) in every tier
+            for op in OPS.iter() {
                 bin(r, op, *x, *y);
             }
         }
@@ -135,7 +133,7 @@ fn arith_for<T: Fx>(r: &mut Rec, rng: &mut StdRng, scale: usize) {
     edge_pairs::<T>(r, rng, quick);
     // 3. every boundary value against a core value, another boundary value and a random value
     for (i, x) in bnd.iter().enumerate() {
-        if quick && i % 6 != 0 {
+        if quick && i % 8 != 0 {
             continue;
         }
         let partners = [core[rng.gen_range(0..core.len())], bnd[rng.gen_range(0..bnd.len())], random_value::<T>(rng)];
@@ -150,7 +148,7 @@ fn arith_for<T: Fx>(r: &mut Rec, rng: &mut StdRng, scale: usize) {
         }
     }
     // 4. seeded random pairs, bit lengths spread over the whole width (wide intermediate products)
-    for i in 0..(if quick { 700 } else { 1200 * scale }) {
+    for i in 0..(if quick { 400 } else { 1200 * scale }) {
         let x = random_value::<T>(rng);
         let y = if i % 7 == 0 { x } else { random_value::<T>(rng) };
         bin(r, OPS[i % 4], x, y);
@@ -251,10 +249,11 @@ fn conversions(r: &mut Rec, rng: &mut StdRng, scale: usize) {
     // Decimal -> PreciseDecimal (exact), PreciseDecimal -> Decimal (truncating or failing)
     let quick = scale == 1;
     let dvals = boundary_values::<Decimal>();
+    let dcore = core_values::<Decimal>().len();
     let k = Big::pow10(18);
     let mut pvals: Vec<PreciseDecimal> = vec![];
     for (i, d) in dvals.iter().enumerate() {
-        if quick && i % 5 != 0 && i > 60 {
+        if quick && i % 5 != 0 && i >= dcore {
             continue;
         }
         let res = catch(|| Some(PreciseDecimal::from(*d)));
@@ -262,7 +261,7 @@ fn conversions(r: &mut Rec, rng: &mut StdRng, scale: usize) {
         r.emit(json!({"a": "widen", "x": d.limbs(), "out": o, "r": rv}));
         let w = d.big().mul(&k);
         for delta in [Big::zero(), Big::from_i128(1), Big::from_i128(-1), k.addi(-1), k.addi(-1).neg(), k.clone(), k.neg()] {
-            if (i % 3 == 0 || i < 60) || delta.is_zero() {
+            if (i % 3 == 0 || i < dcore) || delta.is_zero() {
                 if let Some(p) = PreciseDecimal::from_big(&w.add(&delta)) {
                     pvals.push(p);
                 }
@@ -277,12 +276,13 @@ fn conversions(r: &mut Rec, rng: &mut StdRng, scale: usize) {
         }
     }
     let pb = boundary_values::<PreciseDecimal>();
+    let ncore = core_values::<PreciseDecimal>().len();
     for (i, p) in pb.iter().enumerate() {
-        if !quick || i % 6 == 0 {
+        if !quick || i < ncore || i % 6 == 0 {
             pvals.push(*p);
         }
     }
-    for _ in 0..(400 * scale) {
+    for _ in 0..(if quick { 200 } else { 400 * scale }) {
         pvals.push(random_value::<PreciseDecimal>(rng));
     }
     for p in pvals {
